@@ -1103,6 +1103,30 @@ func directedStaged(c *ctx) {
 		}
 	}
 	c.stat("staged_policies", n)
+	// overlapping element patterns with different rules: an element both match, then elements only one of
+	// them matches carrying the other's attributes and style properties — in one document and across calls
+	for v := 0; v < 3; v++ {
+		ops := []*bmx.Op{{Kind: "AA", Names: []string{"foo"}, Scope: "M", ScopeRe: bmx.NewRE(`^my-`)},
+			{Kind: "AA", Names: []string{"bar"}, Scope: "M", ScopeRe: bmx.NewRE(`-box$`)},
+			{Kind: "AA", Names: []string{"baz"}, Re: bmx.NewRE(`^[0-9]+$`), Scope: "M", ScopeRe: bmx.NewRE(`^my-b`)}}
+		if v >= 1 {
+			ops = append(ops, &bmx.Op{Kind: "AA", Names: []string{"style"}, Scope: "G"},
+				&bmx.Op{Kind: "AS", Names: []string{"color"}, Enum: []string{"red"}, Scope: "M", ScopeRe: bmx.NewRE(`^my-`)},
+				&bmx.Op{Kind: "AS", Names: []string{"width"}, Enum: []string{"1px"}, Scope: "M", ScopeRe: bmx.NewRE(`-box$`)})
+		}
+		if v == 2 {
+			ops = append(ops, &bmx.Op{Kind: "AEM", Re: bmx.NewRE(`^(my|a)-`)})
+		}
+		pid, pol := c.policy(ops)
+		for rep := 0; rep < 3; rep++ {
+			for _, d := range []string{"<my-box foo=\"1\" bar=\"2\" baz=\"3\" style=\"color: red; width: 1px\">both</my-box>",
+				"<my-x bar=\"2\" foo=\"1\" baz=\"3\" style=\"width: 1px; color: red\">first only</my-x>",
+				"<a-box foo=\"1\" bar=\"2\" style=\"color: red; width: 1px\">second only</a-box>",
+				"<my-box bar=\"2\">b</my-box><my-y bar=\"2\" baz=\"x\">y</my-y><a-box foo=\"1\">a</a-box>"} {
+				c.san(pid, pol, []byte(d))
+			}
+		}
+	}
 	directedPatterns(c)
 	directedNameFolding(c)
 	switch c.prop {
